@@ -36,13 +36,17 @@ import (
 const rtPath = "verif/sim/simrt"
 const syncPath = "verif/sim/simsync"
 
+// auxPath is the package (copied into the module under test by build.sh) that replaces the standard-library calls
+// which start goroutines of their own
+var auxPath = ""
+
 var counter int
 var stats = map[string]int{}
 
 func main() {
 	dir := os.Args[1]
 	cfg := &packages.Config{
-		Mode: packages.NeedName | packages.NeedFiles | packages.NeedSyntax | packages.NeedTypes | packages.NeedTypesInfo | packages.NeedCompiledGoFiles | packages.NeedImports | packages.NeedDeps,
+		Mode: packages.NeedName | packages.NeedFiles | packages.NeedSyntax | packages.NeedTypes | packages.NeedTypesInfo | packages.NeedCompiledGoFiles | packages.NeedImports | packages.NeedDeps | packages.NeedModule,
 		Dir:  dir,
 		Env:  append(os.Environ(), "GOWORK=off"),
 	}
@@ -50,6 +54,11 @@ func main() {
 	if err != nil {
 		fmt.Fprintln(os.Stderr, "instr: load:", err)
 		os.Exit(2)
+	}
+	for _, p := range pkgs {
+		if p.Module != nil && p.Module.Main {
+			auxPath = p.Module.Path + "/zzsimaux"
+		}
 	}
 	nfiles := 0
 	bad := false
@@ -86,7 +95,7 @@ func main() {
 		}
 	}
 	fmt.Printf("instrumented files=%d sites=%d", nfiles, counter)
-	for _, k := range []string{"go", "send", "recv", "rangechan", "select", "close", "atomic", "maprange", "sync"} {
+	for _, k := range []string{"go", "send", "recv", "rangechan", "select", "close", "atomic", "maprange", "sync", "stdgo"} {
 		fmt.Printf(" %s=%d", k, stats[k])
 	}
 	fmt.Println()
@@ -222,6 +231,47 @@ func instrumentFile(p *packages.Package, f *ast.File, name string) bool {
 			changed = true
 			stats["sync"]++
 		}
+	}
+	// calls that start goroutines inside the standard library: redirect them to goroutines the simulator sees
+	usesAux := false
+	if auxPath != "" && p.PkgPath != auxPath {
+		isPkgFn := func(ce *ast.CallExpr, pkg, fn string) bool {
+			se, ok := ce.Fun.(*ast.SelectorExpr)
+			if !ok || se.Sel.Name != fn {
+				return false
+			}
+			id, ok := se.X.(*ast.Ident)
+			if !ok {
+				return false
+			}
+			pn, ok := p.TypesInfo.Uses[id].(*types.PkgName)
+			return ok && pn.Imported().Path() == pkg
+		}
+		redirect := func(ce *ast.CallExpr, fn string) {
+			ce.Fun = &ast.SelectorExpr{X: ast.NewIdent("zzsimaux"), Sel: ast.NewIdent(fn)}
+			usesAux = true
+			stats["stdgo"]++
+		}
+		ast.Inspect(f, func(n ast.Node) bool {
+			switch s := n.(type) {
+			case *ast.CallExpr:
+				if isPkgFn(s, "context", "AfterFunc") {
+					redirect(s, "CtxAfterFunc")
+				}
+			case *ast.ExprStmt:
+				if ce, ok := s.X.(*ast.CallExpr); ok && isPkgFn(ce, "time", "AfterFunc") {
+					redirect(ce, "TimeAfterFunc")
+				}
+			case *ast.AssignStmt:
+				// (only where the timer's type is inferred: a variable declared as *time.Timer would not fit)
+				if s.Tok == token.DEFINE && len(s.Rhs) == 1 {
+					if ce, ok := s.Rhs[0].(*ast.CallExpr); ok && isPkgFn(ce, "time", "AfterFunc") {
+						redirect(ce, "TimeAfterFunc")
+					}
+				}
+			}
+			return true
+		})
 	}
 	inComm := map[ast.Node]bool{}
 	ast.Inspect(f, func(n ast.Node) bool {
@@ -507,6 +557,15 @@ func instrumentFile(p *packages.Package, f *ast.File, name string) bool {
 		return true
 	}
 	astutil.Apply(f, nil, post)
+	if usesAux {
+		astutil.AddNamedImport(p.Fset, f, "zzsimaux", auxPath)
+		for _, std := range []string{"context", "time"} {
+			if !astutil.UsesImport(f, std) {
+				astutil.DeleteImport(p.Fset, f, std)
+			}
+		}
+		changed = true
+	}
 	if usesRt {
 		have := false
 		for _, imp := range f.Imports {
